@@ -247,6 +247,26 @@ pub fn lzbuf_edge_inputs(thorough: bool) -> Vec<Input> {
     v
 }
 
+/// Inputs that compress to an alternation of one literal and one maximum-length match (a varying
+/// separator byte in front of each copy of a 258-byte phrase), behind a noise prefix of every
+/// length 0..=100: the decoder's fast loop then meets "one literal + one 258-byte match" at every
+/// fill level of the growing output vector of the one-shot functions.
+pub fn lit258_inputs(thorough: bool) -> Vec<Input> {
+    let mut l = crate::util::Lcg(0x258 ^ crate::util::seed());
+    let phrase: Vec<u8> = (0..258).map(|_| l.byte()).collect();
+    let noise: Vec<u8> = (0..128).map(|_| l.byte()).collect();
+    let mut v = vec![];
+    for p in (0..=100usize).step_by(if thorough { 1 } else { 1 }) {
+        let mut d = noise[..p].to_vec();
+        for i in 0..(if thorough { 260 } else { 200 }) {
+            d.push((i * 7 + 3) as u8);
+            d.extend_from_slice(&phrase);
+        }
+        v.push(Input { name: format!("lit258:p{}", p), data: d });
+    }
+    v
+}
+
 /// Long inputs (66–200 KB): flush_block runs mid-call, blocks partially drained.
 pub fn long_inputs() -> Vec<Input> {
     vec![
